@@ -15,10 +15,10 @@ func init() {
 		DesignRef: "DESIGN.md §5 C43",
 		Level: "Decides that every OTLP metric type other than Empty is dispatched to a converter (and an unknown type is reported as an error, not dropped), that every data-point converter turns the no-recorded-value flag into a staleness marker path, that the two native-histogram converters distinguish delta temporality, " +
 			"that aggregationTemporality covers the three metric types that carry a temporality, and that all places in convertBucketsLayout that down-scale a bucket index do it by arithmetic right shift (rounding toward −∞), so the loop and the final flush agree.",
-		Note:     "Trusted: go/packages, go/types (export data of go.opentelemetry.io/collector/pdata), go/cfg; rule tables in checker/c43.go.",
-		Covers:   "PrometheusConverter.FromMetrics dispatch, TranslatorMetricFromOtelMetric, addGaugeNumberDataPoints, addSumNumberDataPoints, addHistogramDataPoints, addSummaryDataPoints, exponentialToNativeHistogram, explicitHistogramToCustomBucketsHistogram, aggregationTemporality, convertBucketsLayout.",
-		NotCover: "bucket re-scaling results, sums and counts, timestamps, label translation.",
-		Run:      runC43,
+		Note:           "Trusted: go/packages, go/types (export data of go.opentelemetry.io/collector/pdata), go/cfg; rule tables in checker/c43.go.",
+		Covers:         "PrometheusConverter.FromMetrics dispatch, TranslatorMetricFromOtelMetric, addGaugeNumberDataPoints, addSumNumberDataPoints, addHistogramDataPoints, addSummaryDataPoints, exponentialToNativeHistogram, explicitHistogramToCustomBucketsHistogram, aggregationTemporality, convertBucketsLayout.",
+		NotCover:       "bucket re-scaling results, sums and counts, timestamps, label translation.",
+		Run:            runC43,
 		MinObligations: 16,
 	})
 }
